@@ -48,6 +48,8 @@ structure Oracle where
   sdHandled : List String := []              -- the running shutdown has finished stopping these names
   exitAfterSd : List String := []            -- running at shutdown begin; command exited by itself after the request
   sdSeq : List (String × Nat) := []          -- instance numbers at shutdown begin
+  startOnActive : List (String × String) := []   -- (api id, name): start requested on a process that has been
+                                                 -- Running with a live command, in one instance, ever since
   triggers : List (String × Int × Bool) := []   -- (process, code, genuine)
   calls : List (String × List String) := []     -- api id ↦ op words
   prevCmd : List String := []
@@ -248,6 +250,8 @@ def onObs (o : Oracle) (op : List String) (cmdAfter : List String)
     | ["start", x] =>
       let known := o.decls.any (·.name = x)
       let f := if !known && r != "no-such" then [s!"C08:unknown-name-not-rejected start {x} {r}"] else []
+      -- C08: a start request on an active process fails (without side effects)
+      let f := if r == "ok" && o.startOnActive.any (· == (id, x)) then f ++ [s!"C08:start-accepted-on-active {x}"] else f
       (if r == "ok" then { o with stopReq := delS o.stopReq x, lastStartRet := setKV o.lastStartRet x (o.steps + 1) } else o, f)
     | ["restart", x] =>
       let known := o.decls.any (·.name = x)
@@ -334,7 +338,14 @@ def feed (o : Oracle) (op : List String) (impl : String) : Oracle × String :=
       else o
     | ["s", "probe", x, "ok"] =>
       if o.prevCmd.contains x then { o with probeOkEver := addS o.probeOkEver x, readySince := addS o.readySince x } else o
-    | "s" :: "call" :: id :: rest => { o with calls := setKV o.calls id rest }
+    | "s" :: "call" :: id :: rest =>
+      let o := { o with calls := setKV o.calls id rest }
+      match rest with
+      | ["start", x] =>
+        let single := ((csv th).filter fun (t : String) => procNameOfKey ((t.splitOn "@").headD "") == some x).length == 1
+        if single && isRunningSt (lookupD o.status x "") && o.prevCmd.contains x && cmd.contains x then
+          { o with startOnActive := o.startOnActive ++ [(id, x)] } else o
+      | _ => o
     | ["s", "run", key] =>
       if key.startsWith "probe:" && obs.any (fun (ob : String) => ob.startsWith "stop ") then
         match obs.find? (fun (ob : String) => ob.startsWith "stop ") with
@@ -397,6 +408,9 @@ def feed (o : Oracle) (op : List String) (impl : String) : Oracle × String :=
   let fails := fails ++ st.filterMap fun (n, (_, _, _, h)) =>
     if h == "R" && !(o.readySince.contains n) then some s!"C10:ready-without-success {n}" else none
   let quiescent := !(th.contains '*') && cmd.isEmpty
+  let soa := o.startOnActive.filter fun (ix : String × String) =>
+    isRunningSt (lookupD o.status ix.2 "") && cmd.contains ix.2
+  let o := { o with startOnActive := soa }
   let o := { o with prevCmd := cmd, prevRun := run, lastTh := th, lastSt := field impl "st", lastCmd := cmd,
                     quiescent := quiescent, steps := o.steps + 1 }
   (o, verdictOf (fails.map (tagFail o)))
